@@ -749,6 +749,18 @@ def _axis(p):
         o.note("shared_1d_vector_not_claimed", "result shape %s" % (got.shape,))
     elif ok:
         o.close("axis_equals_loop", _rel(got, loop), TOL, sub="shared_1d_vector")
+    # the mirror image: ONE 1-D cn2 profile shared by a stack of height / velocity profiles (same extension, same rule)
+    if rank > 1:
+        c1 = 1e-15 * (1.0 + (numpy.arange(shape[-1]) * 7) % 11)
+        ok, got = _accepts(o, "shared_1d_cn2", lambda: numpy.asarray(f(c1.copy(), w.copy(), lam)))
+        w_m = w.reshape(-1, shape[-1])
+        loop = numpy.array([float(f(c1.copy(), w_m[i].copy(), lam)) for i in range(w_m.shape[0])]).reshape(shape[:-1])
+        o.stat("lib_calls", 1 + w_m.shape[0])
+        if ok and got.shape != shape[:-1]:
+            o.stat("shared_1d_cn2_not_claimed", 1)
+            o.note("shared_1d_cn2_not_claimed", "result shape %s" % (got.shape,))
+        elif ok:
+            o.close("axis_equals_loop", _rel(got, loop), TOL, sub="shared_1d_cn2")
     o.outcome([fn, shape, numpy.round(numpy.asarray(f(cn2, w, lam)) / numpy.asarray(f(cn2, w, lam)).flat[0], 9)])
     return o
 
